@@ -25,9 +25,16 @@ RULE = ('cases = (statement, catalog, planning mode): statements from G-routing 
         'one-part names spelled like a database (table of the default namespace, model mindsdb.int2); CTEs named like '
         'a model of the default namespace; sub-selects in WHERE / select list of a join with a time-series model; '
         'equally named un-aliased tables of two places with conditions on columns written database.table.column; the '
-        'dbt shape below INSERT / CREATE TABLE / UPDATE with a target that names no database. Judged: table '
+        'dbt shape below INSERT / CREATE TABLE / UPDATE with a target that names no database, and with a target that '
+        'names a database around an inner table that names none; statements that touch one project only (a model of '
+        'it alone, joined with its tables, nested in FROM / CTE / INSERT / CREATE / IN / select list / UNION) under '
+        'catalogs that list that project ALSO among the data integrations (plain name | {type: data} dict in place of '
+        'the project dict; the random catalogs do so in a fourth of the cases); sub-selects in WHERE / select list / '
+        'CASE / function argument of a select whose FROM is or joins a native query `int1 (text)`; UPDATE with '
+        'sub-selects in its own WHERE (with and without FROM) and columns written database.table.column. Judged: table '
         'references collected from the original tree by reflection and resolved by an own resolver == the '
-        '(integration, table) pairs mentioned in fetch steps (and in the WHERE of delete steps), the (namespace, '
+        '(integration, table) pairs mentioned in fetch steps (and in the WHERE of delete steps and the WHERE / SET '
+        'values of the command of update steps, which run on the integration of their table), the (namespace, '
         'predictor) pairs of apply steps and the tables of DML steps; no qualifier of the integration and no column '
         'of another database left in a fetch query; a column that the statement writes only as <database>.<table>.'
         '<column> of one database is mentioned in no fetch query for another place; no table reference left in a step '
@@ -38,13 +45,17 @@ RULE = ('cases = (statement, catalog, planning mode): statements from G-routing 
         'places, or a non-lower-case qualifier, or a table outside the top-level FROM; distinct = (statement text, '
         'catalog, mode)')
 ASSUMPTIONS = ['the executor is another repository: a DML step is taken to address the table its identifier resolves to '
-               'and a DELETE step to run its WHERE on the integration of its table',
+               'and a DELETE step to run its WHERE, an UPDATE step its command (WHERE, SET values), on the integration '
+               'of its table',
                'outside the generated domain: aliases / columns named like a database (C11), correlated sub-selects, '
-               'sub-selects in ON / HAVING / ORDER BY / UPDATE..WHERE (positions the property does not list), names '
-               'without a database inside the sub-select of a time-series join below INSERT / UPDATE / CREATE whose '
-               'target names a database (documented dbt workaround: the target\'s integration is assumed), letter '
+               'sub-selects in ON / HAVING / ORDER BY / SET values of UPDATE (positions the property does not list), '
+               'names without a database inside the sub-select of a time-series join below INSERT / UPDATE / CREATE '
+               'whose target names a database when there is NO default namespace (the property names no place for '
+               'them; with a default namespace they are judged: listed finding, the dbt workaround), letter '
                'case of model names, common table expressions defined inside a sub-select (scope of their names), '
-               'native queries `integration (text)`, a planner object or catalog object reused for a second statement',
+               'the text of a native query `integration (text)` (opaque; the clauses around it are judged), a planner '
+               'object or catalog object reused for a second statement, a tree that an earlier planning has rewritten '
+               '(the planner strips qualifiers in place: every case plans a freshly parsed tree)',
                'refusals (PlanningException / NotImplementedError) and internal errors (C09) are not failures unless '
                'the lower-case spelling of the same statement under the canonical catalog is planned correctly',
                'definitions of common table expressions that a step on dataframes still carries are dead text there; '
@@ -59,12 +70,13 @@ _Q = {'__nontrivial__': 518, 'judged': 675, 'routes-ok': 515, 'nonlower': 390, '
       'tag:pos:case-then': 12, 'tag:pos:case-else': 4, 'tag:pos:func-arg': 10, 'tag:pos:func-from-arg': 7,
       'tag:pos:where-in': 42, 'tag:pos:where-scalar': 13, 'tag:pos:where-exists': 6, 'tag:pos:target': 41,
       'tag:pos:cte': 33, 'tag:pos:from-subselect': 48, 'tag:pos:union': 15, 'tag:pos:insert-select': 40,
-      'tag:pos:update-from': 36, 'tag:pos:delete': 46, 'tag:pos:delete-where-sub': 22, 'tag:pos:create-select': 37}
+      'tag:pos:update-from': 36, 'tag:pos:delete': 46, 'tag:pos:delete-where-sub': 22, 'tag:pos:create-select': 37,
+      'tag:cat:also': 200}
 # classes of the bounded-exhaustive list (vf/gens/c10_shapes.py): the same in both tiers
 _QF = {'mech:cat:default-namespace-not-lower': 123, 'mech:cat:legacy-dotted-key': 147,
        'mech:cte:named-like-model': 72, 'mech:dbt:target-without-database': 95, 'mech:join:same-name-unaliased': 106,
        'mech:ref:one-part-like-database': 97, 'mech:ref:schema-table-like-model': 158,
-       'mech:ts-join:target-subselect': 57, 'mech:ts-join:where-subselect': 163, 'tag:fixed': 1246,
+       'mech:ts-join:target-subselect': 57, 'mech:ts-join:where-subselect': 163, 'tag:fixed': 2400,
        'tag:shape:catalog-form:model-join': 111, 'tag:shape:catalog-form:model-select': 88,
        'tag:shape:catalog-form:ts-join': 133, 'tag:shape:catalog-form:unqualified-model': 18,
        'tag:shape:catalog-form:unqualified-table': 117, 'tag:shape:cte-like-model:from': 16,
@@ -77,10 +89,26 @@ _QF = {'mech:cat:default-namespace-not-lower': 123, 'mech:cat:legacy-dotted-key'
        'tag:shape:schema-table-like-model:from': 21, 'tag:shape:schema-table-like-model:in-sub': 21,
        'tag:shape:schema-table-like-model:insert': 21, 'tag:shape:schema-table-like-model:join': 43,
        'tag:shape:schema-table-like-model:ts': 7, 'tag:shape:schema-table-like-model:where-sub': 21,
-       'tag:shape:ts-join:target-sub': 57, 'tag:shape:ts-join:where-sub': 163}
+       'tag:shape:ts-join:target-sub': 57, 'tag:shape:ts-join:where-sub': 163,
+       # wave 6 (exact counts of the list: 972 / 192 / 441 / 27 / 144 and the shape counts below x 2)
+       'mech:cat:project-listed-as-integration': 480, 'also:proj': 160, 'also:mindsdb': 160, 'also:mindsdb+proj': 120,
+       'mech:dbt:inner-without-database': 96, 'mech:native:outer-subselect': 220, 'mech:update:qualified-column': 13,
+       'mech:update:where-subselect': 72, 'tag:shape:dbt-qualified-target:create': 24,
+       'tag:shape:dbt-qualified-target:insert': 48, 'tag:shape:dbt-qualified-target:update': 24,
+       'tag:shape:native-from:join': 40, 'tag:shape:native-from:nested': 40, 'tag:shape:native-from:plain': 9,
+       'tag:shape:native-from:target-sub': 40, 'tag:shape:native-from:ts-join': 27, 'tag:shape:native-from:where-sub': 72,
+       'tag:shape:project-as-integration:model-join': 85, 'tag:shape:project-as-integration:model-select': 45,
+       'tag:shape:project-as-integration:nested': 128, 'tag:shape:project-as-integration:tables': 80,
+       'tag:shape:project-as-integration:ts-join': 21, 'tag:shape:update-where:from-sub': 27,
+       'tag:shape:update-where:plain': 10, 'tag:shape:update-where:qualified-column': 13, 'tag:shape:update-where:sub': 45,
+       'judged:cat:project-listed-as-integration': 480, 'judged:dbt:inner-without-database': 96,
+       'judged:native:outer-subselect': 220, 'judged:update:qualified-column': 13, 'judged:update:where-subselect': 72}
 FLOORS = {'quick': dict(_Q, **_QF), 'thorough': dict({k: v * 12 for k, v in _Q.items()}, **_QF)}     # thorough runs 15 x the random cases
 N = {'quick': 200, 'thorough': 3000}
 
+# constellations for which the number of cases that reach the oracle with a plan is guarded as well
+JUDGED_MECH = ('cat:project-listed-as-integration', 'native:outer-subselect', 'update:where-subselect',
+               'update:qualified-column', 'dbt:inner-without-database')
 PREPARED_COLUMNS = ['a', 'b', 'c', 'd', 'e', 's', 'p', 'c0', 'c1', 'c2', 'c3']
 KNOWN_DB = ['int1', 'int2', 'api1', 'proj', 'mindsdb']
 # the world of G-routing plus a plain model that is named like an integration (vf/gens/c10_shapes.py)
@@ -361,6 +389,13 @@ def route_failures(orig, steps, pre, cat):
                     break
             if site != '?':
                 f.append('sent-as-written-to-other-place')
+            else:
+                # a model reference, its project cut off, in table position of a fetch query
+                mod = [r for w, r, s, q, role, _, _ in refs
+                       if role == 'read' and r[0] == 'model' and len(w) > len(e[2]) and w[-len(e[2]):] == e[2]]
+                if mod:
+                    site, f = origin(route=mod[0])
+                    f.append('model-sent-to-integration')
         elif site != '?':
             # the table name still is the reference as written (qualifier included) or an unqualified name
             if R.resolve(list(e[2]), cat)[0] == 'model':
@@ -599,7 +634,7 @@ def judge(case, col):
 
     steps, pre = res[1], res[2]
     pt = plan_tags(steps)
-    classes += sorted(pt) + ['judged']
+    classes += sorted(pt) + ['judged'] + ['judged:' + m for m in mech if m in JUDGED_MECH]
     fails = route_failures(orig, steps, pre, cat)
     if fails:
         _, bres, bfails = run('base')
@@ -660,6 +695,7 @@ def cases(draw):
         c['mode'] = mode
         if also:
             c['catalog']['also'] = also
+            c['meta']['tags'] = sorted(c['meta']['tags'] + ['cat:also'])
         return c
     i = draw(st.integers(0, len(_CFGS) - 1))
     cfg, places, api = _CFGS[i]
@@ -672,7 +708,8 @@ def cases(draw):
     if also:
         spec['also'] = also
     return {'sql': c['sql'], 'catalog': spec, 'mode': mode,
-            'meta': {'tags': ['gmodel'] + [t for t in c['meta']['tags'] if t.startswith(('sub:', 'cte', 'setop', 'join:', 'case'))]}}
+            'meta': {'tags': ['gmodel'] + (['cat:also'] if also else [])
+                     + [t for t in c['meta']['tags'] if t.startswith(('sub:', 'cte', 'setop', 'join:', 'case'))]}}
 
 
 def run_shard(col, k, nshards, tier, seed):
@@ -684,5 +721,7 @@ def run_shard(col, k, nshards, tier, seed):
     col.exhaustive_parts.append(f'{len(fixed)} statements of vf/gens/c10_shapes.py: shapes (catalog forms, schema.table '
                                 f'named like a model, one-part name like a database, CTE named like a model, sub-selects of a '
                                 f'time-series join, equally named tables of two places, dbt shape without a database in '
-                                f'the target) x default namespace x catalog form x spelling')
+                                f'the target and with one around an inner table without; one-project statements x catalogs '
+                                f'listing the project also as data integration; clauses around a native query; UPDATE with '
+                                f'conditions of its own) x default namespace x catalog form x spelling')
     hyp.explore(col, cases(), judge, N[tier], seed, shrink_key=lambda r: (r['kind'], r['site'][:40]))
